@@ -488,11 +488,45 @@ def _g3(run, M, base):
                 if isinstance(st, ast.Assign) and st.value is seq[1] and isinstance(st.targets[0], ast.Name):
                     tgt = st.targets[0].id
             retv = unparse(p.end_node.value) if p.end_node.value is not None else ""
-            ok = a0 == "input" and a1 == "input" and tgt is not None and a2 == tgt and retv == tgt
-            detail = "(_check_ishape(%s); %s = _apply(%s); _check_oshape(%s); return %s)" % (a0, tgt, a1, a2, retv)
+            # what _apply returned is what apply returns: nothing on the path rebinds or rewrites it afterwards (a cast "back to the input's dtype"
+            # drops the imaginary part of a complex result for real input)
+            touched = []
+            seen_apply = False
+            for st in p.stmts():
+                if isinstance(st, ast.Assign) and st.value is seq[1]:
+                    seen_apply = True
+                    continue
+                if seen_apply and tgt is not None:
+                    tg = st.targets if isinstance(st, ast.Assign) else ([st.target] if isinstance(st, (ast.AugAssign, ast.AnnAssign)) else [])
+                    for t_ in tg:
+                        base_ = t_
+                        while isinstance(base_, ast.Subscript):
+                            base_ = base_.value
+                        if isinstance(base_, ast.Name) and base_.id == tgt:
+                            touched.append(unparse(st)[:80])
+            ok = a0 == "input" and a1 == "input" and tgt is not None and a2 == tgt and retv == tgt and not touched
+            detail = "(_check_ishape(%s); %s = _apply(%s); _check_oshape(%s); return %s%s)" % (a0, tgt, a1, a2, retv, ("; result modified by `%s`" % touched[0]) if touched else "")
         run.check(ok, "G3", "Linop.apply path", f.loc(), "guards around _apply in order " + detail,
                   "a returning path of Linop.apply runs %s %s; expected _check_ishape(input), output = _apply(input), _check_oshape(output), return output"
                   % (names, detail), stmt="G3:apply")
+    # the operator owns its shapes: the constructor stores fresh lists, never the caller's (mutable) list object itself
+    init = M.method(base, "__init__", inherit=False)
+    if init is None:
+        raise AnchorMissing("Linop.__init__")
+    for attr in ("oshape", "ishape"):
+        vals = [n.value for n in ast.walk(init.node) if isinstance(n, ast.Assign) and any(isinstance(t, ast.Attribute) and isinstance(t.value, ast.Name)
+                                                                                              and t.value.id == "self" and t.attr == attr for t in n.targets)]
+
+        def fresh(v):
+            if isinstance(v, ast.IfExp):
+                return fresh(v.body) and fresh(v.orelse)
+            if isinstance(v, ast.Call) and isinstance(v.func, ast.Name) and v.func.id in ("list", "tuple") and len(v.args) == 1:
+                return True
+            return isinstance(v, (ast.ListComp, ast.List, ast.Tuple))
+        run.check(bool(vals) and all(fresh(v) for v in vals), "G3", "Linop.__init__ self." + attr, init.loc(), "stores a fresh list(%s)" % attr,
+                  "Linop.__init__ stores `%s` as self.%s: when the caller passes a list, the operator and its adjoint share that list object, so a later change of the "
+                  "caller's list silently changes the operator's advertised shape (and what Gridding / Resize / Reshape hand to their functions)"
+                  % (unparse(vals[0]) if vals else "nothing", attr), stmt="G3:init:" + attr)
     # the guards themselves: unrolled over a rank-2 shape they raise exactly when a dimension differs (and is not -1)
     for gname, arr, shp in (("_check_ishape", "input", "ishape"), ("_check_oshape", "output", "oshape")):
         g = M.method(base, gname, inherit=False)
@@ -630,6 +664,22 @@ def _g4(run, M, alg):
                   "G4", cname + " shape", M.func("sigpy.linop.%s.__init__" % cname).loc(),
                   "%s comes from %s over the children's %s and the requested axis" % (attr, helper, attr),
                   "%s.%s is %s; expected %s([l.%s for l in linops], axis)[0]" % (cname, attr, _show(shp), helper, attr), stmt="G4:shape:" + cname)
+    # Diag: both shapes come from the helpers over the children's shapes with the axes the caller gave (an axis already wrapped with
+    # `% rank` is the same axis; anything else -- in particular None for the valid axis 0 -- is a different operator)
+    for inst in alg.instances(M.cls("sigpy.linop.Diag")):
+        ctx = cond_text(inst.conds)[:60]
+        for shp, helper, attr, axn in ((inst.ishape, "_hstack_params", "ishape", "iaxis"), (inst.oshape, "_vstack_params", "oshape", "oaxis")):
+            shown = T.show(_t(shp), 500).replace(" ", "")
+            ok_axis = ("kw:axis(%s)" % axn) in shown or ("kw:axis(mod(%s," % axn) in shown
+            ok_src = ("fn:sigpy.linop.%s(" % helper) in shown and ("comp(attr:%s(@0),linops)" % attr) in shown
+            stored = inst.attrs.get(axn)
+            st_shown = T.show(_t(stored), 120).replace(" ", "") if stored is not None else "missing"
+            ok_attr = st_shown == axn or st_shown.startswith("mod(%s," % axn)
+            run.check(ok_axis and ok_src and ok_attr, "G4", "Diag %s[%s]" % (attr, ctx), M.func("sigpy.linop.Diag.__init__").loc(),
+                      "%s comes from %s over the children's %s and the requested %s, which is also what _apply reads" % (attr, helper, attr, axn),
+                      "Diag.__init__ under [%s]: %s is %s and self.%s is %s; expected %s([l.%s for l in linops], %s)[0] with the caller's %s stored unchanged "
+                      "(a valid axis such as 0 must not turn into None = flatten)" % (ctx, attr, _show(shp)[:200], axn, st_shown[:80], helper, attr, axn, axn),
+                      stmt="G4:diag:%s:%s" % (attr, ctx))
 
 
 # ------------------------------------------------------------------------------------------ G5
